@@ -24,8 +24,48 @@ def limbs(n):
             return out
 
 
-def validate(module, records, cfg="mc/Trace.cfg", timeout=3600, deque=False, env=None, heap="8g", extra_files=()):
-    """Returns (bad, res): bad = list of verdict dicts (tid, line, clause, alarm?, ...) from the trace spec."""
+MAX_LINES = 20000  # per TLC invocation: a fold over more lines makes TLC's recursion / verdict printing overflow
+
+
+def _batches(records, max_lines):
+    """cut the record list into runs of at most ~max_lines lines, only where no trace (tid) straddles the cut"""
+    last = {}
+    for i, r in enumerate(records):
+        last[r.get("tid")] = i
+    out, start, horizon = [], 0, -1
+    for i, r in enumerate(records):
+        horizon = max(horizon, last[r.get("tid")])
+        if i + 1 - start >= max_lines and horizon <= i and i + 1 < len(records):
+            out.append((start, i + 1))
+            start = i + 1
+    out.append((start, len(records)))
+    return out
+
+
+def validate(module, records, cfg="mc/Trace.cfg", timeout=3600, deque=False, env=None, heap="8g", extra_files=(), max_lines=None):
+    """Returns (bad, res): bad = list of verdict dicts (tid, line, clause, alarm?, ...) from the trace spec.
+    Long record lists are validated in several TLC invocations (cut between traces); line numbers in `bad` refer
+    to `records`, and res carries the summed state counts."""
+    max_lines = max_lines or MAX_LINES
+    if len(records) <= max_lines:
+        return _validate(module, records, cfg, timeout, deque, env, heap, extra_files)
+    bad, res = [], None
+    distinct = generated = 0
+    wall = 0.0
+    for a, b in _batches(records, max_lines):
+        part, res = _validate(module, records[a:b], cfg, timeout, deque, env, heap, extra_files)
+        for x in part:
+            if isinstance(x, dict) and isinstance(x.get("line"), int):
+                x["line"] += a
+        bad += part
+        distinct += res.distinct
+        generated += res.generated
+        wall += res.wall_s
+    res.distinct, res.generated, res.wall_s = distinct, generated, wall
+    return bad, res
+
+
+def _validate(module, records, cfg, timeout, deque, env, heap, extra_files):
     wd = tlc.mkscratch("trace")
     path = os.path.join(wd, "trace.ndjson")
     with open(path, "w") as f:
